@@ -257,12 +257,17 @@ Ltac go_bool_atom c :=
   | Bool.eqb ?a ?b => first [go_bool_atom a | go_bool_atom b]
   | true => fail
   | false => fail
-  | _ => destruct c eqn:?
+  | _ => lazymatch type of c with bool => destruct c eqn:? end
   end.
 
+(** Innermost conditions first, so that no recorded equation contains an [if]. *)
 Ltac go_cases :=
   repeat (match goal with
-          | |- context [if ?c then _ else _] => go_bool_atom c
+          | |- context [if ?c then _ else _] =>
+              lazymatch c with
+              | context [if _ then _ else _] => fail
+              | _ => go_bool_atom c
+              end
           end; cbn [negb andb orb Bool.eqb]).
 
 (** Boolean comparison atoms in hypotheses to (in)equalities for [lia]. *)
@@ -277,3 +282,43 @@ Ltac go_arith :=
          | H : (_ <=? _)%N = _ |- _ => first [apply N.leb_le in H | apply N.leb_gt in H]
          | H : (_ =? _)%N = _ |- _ => first [apply N.eqb_eq in H | apply N.eqb_neq in H]
          end.
+
+(** * Panic conditions (checked mode of the translator): [true] = the
+    expression does not panic. *)
+Definition go_index_ok {A} (s : list A) (i : Z) : bool := (0 <=? i) && (i <? go_len s).
+Definition go_slice_ok {A} (s : list A) (lo hi : Z) : bool :=
+  (0 <=? lo) && (lo <=? hi) && (hi <=? go_len s).
+
+Lemma go_slice_ok_eq {A} (s : list A) lo hi :
+  go_slice_ok s lo hi = true ->
+  go_slice s lo hi = firstn (Z.to_nat (hi - lo)) (skipn (Z.to_nat lo) s).
+Proof. unfold go_slice_ok, go_slice. intros ->. reflexivity. Qed.
+
+(** Slices and wraps at arguments that come from [N] (the models count in [N]). *)
+Lemma go_slice_N {A} (l : list A) (s e : N) :
+  (s <= e)%N -> (e <= N.of_nat (List.length l))%N ->
+  go_slice l (Z.of_N s) (Z.of_N e) = skipn (N.to_nat s) (firstn (N.to_nat e) l).
+Proof.
+  intros H1 H2. unfold go_slice, go_len.
+  destruct (Z.leb_spec 0 (Z.of_N s)); [|lia].
+  destruct (Z.leb_spec (Z.of_N s) (Z.of_N e)); [|lia].
+  destruct (Z.leb_spec (Z.of_N e) (Z.of_nat (length l))); [|lia]. cbn [andb].
+  rewrite skipn_firstn_comm. f_equal; [lia|f_equal; lia].
+Qed.
+
+Lemma wrap_u64_of_N (a : N) : wrap_u64 (Z.of_N a) = Z.of_N (a mod 18446744073709551616)%N.
+Proof. unfold wrap_u64, two64z. lia. Qed.
+
+Lemma wrap_u64_len {A} (l : list A) :
+  (N.of_nat (List.length l) < 18446744073709551616)%N -> wrap_u64 (go_len l) = Z.of_N (N.of_nat (List.length l)).
+Proof. intros H. unfold wrap_u64, go_len, two64z. lia. Qed.
+
+Fixpoint list_eqb {A} (eqb : A -> A -> bool) (a b : list A) : bool :=
+  match a, b with
+  | [], [] => true
+  | x :: a', y :: b' => eqb x y && list_eqb eqb a' b'
+  | _, _ => false
+  end.
+
+(** A Go string or slice holds fewer than 2^63 elements ([len] is an [int]). *)
+Definition go_sized {A} (l : list A) : Prop := go_len l < two63z.
